@@ -63,6 +63,7 @@ Env == [L1 |-> l1, L2 |-> L2Rows]
 AllPreds ==
     {PLit(TRUE), PLit(FALSE), Cmp("lt", A, B), Cmp("eq", A, Lit(0)), In(B, Range(0, 2, 1)),
      In(A, Range(1, -1, -1)),            \* a DESCENDING non-empty range (members 1, 0)
+     Not(In(B, Range(1, -1, -1))),       \* ... negated: false on every row of the value domain
      And(<<Cmp("gt", A, Lit(0)), Cmp("le", B, Lit(1))>>), Or(<<Cmp("eq", A, Lit(1)), Cmp("eq", B, Lit(0))>>),
      Cmp("lt", C, Lit(1)), Cmp("ne", A, Lit(1)), Not(Cmp("eq", B, Lit(1))),
      Cmp("eq", V, Lit(1)), And(<<PLit(TRUE), Cmp("ge", C, A)>>)}
